@@ -183,6 +183,33 @@ Proof. intros H.
   split; [exact (C11_backtrack_first _ _ _ _ _ _ _ H)|].
   exists c. split; [exact Hc|]. rewrite Ec. ring. Qed.
 
+(* the step parameter actually used (model of the selection before the loop; coq/gen/C11_Equiv.v ties it to the source):
+   an explicit non-zero mu wins; mu = None or mu = 0 fall back to 3/(2 sqrt n), n from the start point if given, else from the tomography;
+   without either the call fails *)
+Lemma C11_default_mu_spec (sqrtn : nat -> F) :
+  (forall m sl qn, m <> 0 -> C11_default_mu F sqrtn (Some m) sl qn = Some m)
+  /\ (forall sl qn, C11_default_mu F sqrtn (Some 0) sl qn = C11_default_mu F sqrtn None sl qn)
+  /\ (forall n qn, C11_default_mu F sqrtn None (Some n) qn = Some (C11_mu_formula F sqrtn n))
+  /\ (forall n, C11_default_mu F sqrtn None None (Some n) = Some (C11_mu_formula F sqrtn n))
+  /\ C11_default_mu F sqrtn None None None = None.
+Proof. unfold C11_default_mu. split; [|split; [|split; [|split]]]; try reflexivity.
+  - intros m sl qn Hm. destruct (keqb F m 0) eqn:E; [|reflexivity]. apply keqb_spec in E. contradiction.
+  - intros sl qn. assert (E : keqb F 0 0 = true) by now apply keqb_spec. now rewrite E. Qed.
+(* with sqrtn n * sqrtn n = n (as a field element) and n > 0 the default mu is positive and non-zero, as T1-T5 require *)
+Lemma C11_mu_formula_pos (sqrtn : nat -> F) n : 0 <= sqrtn n -> sqrtn n <> 0 ->
+  0 <= C11_mu_formula F sqrtn n /\ C11_mu_formula F sqrtn n <> 0.
+Proof. intros Hs Hs0. unfold C11_mu_formula.
+  assert (H2 : (1 + 1) * sqrtn n <> 0).
+  { intros E. apply Hs0. replace (sqrtn n) with (((1 + 1) * sqrtn n) / (1 + 1)) by (field; apply C11_two_neq0). rewrite E. field. apply C11_two_neq0. }
+  assert (H3 : 0 <= 1 + 1 + 1) by (apply add_nonneg; [apply C11_two_pos|apply one_nonneg]).
+  assert (Hd : 0 <= (1 + 1) * sqrtn n) by (apply k_mul; [apply C11_two_pos|exact Hs]).
+  split.
+  - replace ((1 + 1 + 1) / ((1 + 1) * sqrtn n)) with ((1 + 1 + 1) * (1 / ((1 + 1) * sqrtn n))) by (field; repeat split; first [exact Hs0 | apply C11_two_neq0 | exact H2]).
+    apply k_mul; [exact H3|]. apply inv_nonneg; assumption.
+  - intros E. assert (Z : 1 + 1 + 1 = 0).
+    { replace (1 + 1 + 1) with (((1 + 1 + 1) / ((1 + 1) * sqrtn n)) * ((1 + 1) * sqrtn n)) by (field; repeat split; first [exact Hs0 | apply C11_two_neq0 | exact H2]). rewrite E. ring. }
+    apply (not_le_0_m1 F). replace (- (1)) with (1 + 1) by (replace (1 + 1) with ((1 + 1 + 1) - 1) by ring; rewrite Z; ring). apply C11_two_pos. Qed.
+
 Section Decrease.
 Variables (n : nat) (C : vec -> Prop) (P : vec -> vec) (f : vec -> F) (g : vec -> vec) (mu gamma : F).
 Hypothesis Hmu0 : mu <> 0.
